@@ -36,7 +36,9 @@ func Seq(cs ...*regattapb.Command) *regattapb.Command {
 	return &regattapb.Command{Table: Table, Type: regattapb.Command_SEQUENCE, Sequence: cs}
 }
 
-func Dummy() *regattapb.Command { return &regattapb.Command{Table: Table, Type: regattapb.Command_DUMMY} }
+func Dummy() *regattapb.Command {
+	return &regattapb.Command{Table: Table, Type: regattapb.Command_DUMMY}
+}
 
 func WithLeader(c *regattapb.Command, li uint64) *regattapb.Command {
 	c.LeaderIndex = &li
@@ -68,4 +70,4 @@ func OpDel(k string, end []byte, prev, count bool) *regattapb.RequestOp {
 }
 
 func Ops(o ...*regattapb.RequestOp) []*regattapb.RequestOp { return o }
-func Cmps(c ...*regattapb.Compare) []*regattapb.Compare   { return c }
+func Cmps(c ...*regattapb.Compare) []*regattapb.Compare    { return c }
